@@ -97,11 +97,12 @@ pub fn run(outdir: &Path, tier: &str, seed: u64, shards: usize, replay: Option<S
     let mut rng = Rng::new(seed ^ 0xC07);
     let n = if tier == "thorough" { 700 } else { 45 };
     let variants: Vec<(&str, JsonVariant)> = vec![
-        ("bare json", JsonVariant { data_wrapped: false, builtin_scalars: 0, meta_types: 0, is_one_of: true }),
-        ("data-wrapped json", JsonVariant { data_wrapped: true, builtin_scalars: 0, meta_types: 0, is_one_of: true }),
-        ("built-in scalars first", JsonVariant { data_wrapped: true, builtin_scalars: 1, meta_types: 0, is_one_of: true }),
-        ("built-in scalars last, __ types first", JsonVariant { data_wrapped: false, builtin_scalars: 2, meta_types: 1, is_one_of: true }),
-        ("__ types interleaved", JsonVariant { data_wrapped: true, builtin_scalars: 1, meta_types: 3, is_one_of: true }),
+        ("bare json", JsonVariant { data_wrapped: false, builtin_scalars: 0, meta_types: 0, is_one_of: true, leftover_reason: false }),
+        ("data-wrapped json", JsonVariant { data_wrapped: true, builtin_scalars: 0, meta_types: 0, is_one_of: true, leftover_reason: false }),
+        ("built-in scalars first", JsonVariant { data_wrapped: true, builtin_scalars: 1, meta_types: 0, is_one_of: true, leftover_reason: false }),
+        ("built-in scalars last, __ types first", JsonVariant { data_wrapped: false, builtin_scalars: 2, meta_types: 1, is_one_of: true, leftover_reason: false }),
+        ("__ types interleaved", JsonVariant { data_wrapped: true, builtin_scalars: 1, meta_types: 3, is_one_of: true, leftover_reason: false }),
+        ("leftover deprecationReason on current fields", JsonVariant { data_wrapped: false, builtin_scalars: 0, meta_types: 0, is_one_of: true, leftover_reason: true }),
     ];
     let programs: Vec<progs::Program> = if let Some(rp) = replay {
         let v: Value = serde_json::from_str(&std::fs::read_to_string(rp).unwrap()).unwrap();
@@ -138,7 +139,7 @@ pub fn run(outdir: &Path, tier: &str, seed: u64, shards: usize, replay: Option<S
                 differing.push(name.to_string());
             }
             others.push(format!("({}, {})", coq::s(name), o.coq));
-            if var.meta_types == 0 {
+            if var.meta_types == 0 && !var.leftover_reason {
                 if let Some(ast) = json_schema_coq(&p.schema.render_json(var)) {
                     asts.push(format!("({}, {})", coq::s(name), ast));
                 }
@@ -155,6 +156,41 @@ pub fn run(outdir: &Path, tier: &str, seed: u64, shards: usize, replay: Option<S
                 differing.push("sdl with explicit built-in scalars".to_string());
             }
             others.push(format!("({}, {})", coq::s("sdl with explicit built-in scalars"), o.coq));
+        }
+        // the same schema as modular SDL: every object keeps its first field, each further field (and the
+        // last `implements` entry) moves into an `extend type` block of its own, so most types have SEVERAL
+        // extension blocks; every block counts, not only the last one
+        {
+            let mut q = p.clone();
+            let mut blocks: Vec<TypeDef> = vec![];
+            for d in q.schema.defs.iter_mut() {
+                if let TypeDef::Object { name, implements, fields } = d {
+                    if fields.len() >= 2 {
+                        let moved: Vec<FieldDef> = fields.split_off(1);
+                        let mut imp: Vec<String> = if implements.len() >= 1 { vec![implements.pop().unwrap()] } else { vec![] };
+                        for f in moved {
+                            blocks.push(TypeDef::Extend { name: name.clone(), implements: std::mem::take(&mut imp), fields: vec![f] });
+                        }
+                    }
+                }
+            }
+            // blocks of the same type are not adjacent: interleave by position
+            let mut a: Vec<TypeDef> = vec![];
+            let mut b: Vec<TypeDef> = vec![];
+            for (i, x) in blocks.into_iter().enumerate() {
+                if i % 2 == 0 { a.push(x) } else { b.push(x) }
+            }
+            // existing extension blocks stay after the moved ones (field order inside a type is kept)
+            let (ext, mut rest): (Vec<TypeDef>, Vec<TypeDef>) = q.schema.defs.drain(..).partition(|d| matches!(d, TypeDef::Extend { .. }));
+            rest.extend(a);
+            rest.extend(b);
+            rest.extend(ext);
+            q.schema.defs = rest;
+            let o = gencase::observe(&q, None);
+            if o.coq != base.coq {
+                differing.push("sdl with fields in several extend blocks".to_string());
+            }
+            others.push(format!("({}, {})", coq::s("sdl with fields in several extend blocks"), o.coq));
         }
         for f in ["extend", "one_of", "deprecated", "explicit roots", "union", "interface"] {
             let has = match f {
